@@ -55,7 +55,8 @@ def run_property(prop, tier, A, seed):
         return 2
     known = load_known()
     try:
-        rules = reg[prop](A, tier)
+        from .rules_common import rules_of
+        rules = rules_of(A, prop)      # computed once per analysis, also when another property shares one of these rules
         problems = A.problems()
         if problems:
             for p in problems[:20]:
